@@ -19,7 +19,12 @@ import (
 // Info.Nrows / Size must equal the visible rows either way.
 func writeLimit(t *testing.T, rec *ev.Rec) {
 	rt.Check(t, rec, "writelimit", 12, 60, func(t *rapid.T) {
-		n := 9985 + gen.Uniform(t, "nwrites", 30) // around the limit
+		// around the documented limit of 10 000 writes, or well below it (the
+		// checker's write sets can fill up earlier, which is also a write-limit abort)
+		n := 9985 + gen.Uniform(t, "nwrites", 30)
+		if gen.Chance(t, "below", 50) {
+			n = 1500 + gen.Uniform(t, "nwrites_below", 4500)
+		}
 		pre := gen.Uniform(t, "pre", 4)
 		mix := gen.Uniform(t, "mix", 3) // 0 outputs only, 1 + updates, 2 + deletes
 		db := newDb()
@@ -104,6 +109,10 @@ func writeLimit(t *testing.T, rec *ev.Rec) {
 		}
 		rec.Case(true, fmt.Sprintf("writelimit n=%d pre=%d mix=%d", n, pre, mix))
 		rec.LabelIf(res != "", "writelimit_transaction_aborted")
+		if res != "" {
+			rec.Label(fmt.Sprintf("writelimit_abort_reason:%s", firstWords(res, 4)))
+			rec.Sample("writelimit_abort", fmt.Sprintf("n=%d writes done=%d failedAt=%d err=%q result=%q", n, writes, failedAt, errText, res))
+		}
 		rec.LabelIf(res == "", "writelimit_transaction_committed")
 	})
 }
